@@ -849,6 +849,10 @@ def c12_streams(tier, rng, ctx):
                rule="adversarial argument strings into every Memfs method (each under catch_unwind, followed by a probe call that a poisoned lock would fail)"),
         Stream("c12-helpers", "pycheck", hl, pycheck=lambda l, o: not bad(l, o), exhaustive=True,
                rule="every path helper on all strings up to length 5 over '/', '.', 'a', a 2-byte and a 3-byte character and on the adversarial arguments (binary helpers on pairs): no PANIC"),
+        Stream("c12-handles-no-panic", "pycheck", append_handle_histories() + stale_handle_histories(tier) + copied_handle_histories(), impl_env=dict(MEM_ENV),
+               pycheck=lambda l, o: not bad(l, o), exhaustive=True,
+               rule="write / append handles kept open while the file changes underneath them, is removed, moved, copied or re-created, then written, flushed and dropped: "
+                    "no panic, no poisoned lock"),
         Stream("c12-no-panic", "pycheck", hs + rh, impl_env=dict(MEM_ENV), pycheck=lambda l, o: not bad(l, o),
                rule="no PANIC / POISONED / CRASH / HANG marker in any transcript"),
     ]
